@@ -162,6 +162,39 @@ def check_triple(c, ctx):
         raise Violation(c, 'stepwise commitment check ends in %s, BIP341 says %s (corruption: %s, m=%d)' % (r['res'], 'valid' if want else 'invalid', c['corr'], m), observed=r['res'], expected='done' if want else 'failed')
     if r['iters'] != m + 1:
         raise Violation(c, 'commitment check took %d iterations for a path of %d nodes' % (r['iters'], m), observed=r['iters'], expected=m + 1)
+    if m <= 8 and (control[0] & 0xfe) == 0xc0 and len(program) == 32 and len(control) == 33 + 32 * m and 0 < len(script) <= 10000:
+        check_phase(c, ctx, want, m)
+
+
+def check_phase(c, ctx, want, m):
+    """the same triple as a tapscript spend session, stepped past the end of the commitment phase: a failed check stays failed - every further
+    step fails too and the session never reaches the leaf script -, a passed one hands over to the script"""
+    control, program, script = c['control'], c['program'], c['script']
+    fund = T.Tx()
+    fund.vin = [dict(txid=bytes(32), n=0, script=b'\x51', seq=0xffffffff, wit=[])]
+    fund.vout = [dict(value=10000, spk=b'\x51\x20' + program)]
+    tx = T.Tx()
+    tx.vin = [dict(txid=fund.txid(), n=0, script=b'', seq=0xffffffff, wit=[b'\x01', script, control])]
+    tx.vout = [dict(value=9000, spk=b'\x51')]
+    r = harness().req(kvline('session', spendtx=tx.ser().hex(), spendtxin=fund.ser().hex(), flags=STD, cmds=','.join(['s'] * (m + 5))))
+    if 'crash' in r or 'exit' in r:
+        raise Violation(c, 'spend session died in the commitment phase: %r' % r, observed=r)
+    if 'refused' in r or r.get('timeout'):
+        ctx.count('phase:session-refused:%s' % r.get('refused', 'timeout'))
+        return
+    ctx.count('phase:' + ('valid' if want else 'invalid'))
+    log = r['log']
+    if want:
+        if any(not e['acc'] for e in log[:m + 1]) or log[m]['d']['tce']:
+            raise Violation(c, 'valid commitment: the commitment phase of the session does not complete in %d steps' % (m + 1), observed=[(e['acc'], e['d']['tce']) for e in log[:m + 2]])
+        return
+    failed_at = next((i for i, e in enumerate(log) if not e['acc']), None)
+    if failed_at is None or failed_at > m:
+        raise Violation(c, 'invalid commitment: no step of the commitment phase fails', observed=[(e['acc'], e['d']['tce']) for e in log])
+    for e in log[failed_at:]:
+        if e['acc'] or not e['d']['tce'] or e['d']['pc'] != 0 or e['d']['done']:
+            raise Violation(c, 'invalid commitment: after the failed check a further step is accepted / the session leaves the commitment phase (accepted=%r, in commitment phase=%r, pc=%r)' % (
+                e['acc'], e['d']['tce'], e['d']['pc']), observed=[(x['acc'], x['d']['tce'], x['d']['pc']) for x in log[failed_at:]], expected='every step fails, still in the commitment phase')
 
 
 # ---- size validation and hand-over through a spend session
